@@ -69,6 +69,9 @@ class WordRec(e7.Recogniser):
             except (fold.Unsupported, fold.Diverged):
                 return opaque
             return (key, [(Cons(tab), tt), (Cons(neg=tab), ft)])
+        if e[0] == "call" and e[1] and e[1].endswith("Input::next_char_is") and len(e[2]) == 2 and e[2][1][0] == "const" and isinstance(e[2][1][1], tuple):
+            c = e[2][1][1][1]
+            return (key, [(Cons([c]), tt), (Cons(neg=[c]), ft)])
         if e[0] == "bin" and e[1] in ("Eq", "Ne") and e[3][0] == "const" and isinstance(e[3][1], tuple) and e[2][0] == "call" and e[2][1] \
                 and e[2][1].endswith(("Input::peek", "Input::look_ch")):
             c = e[3][1][1]
@@ -145,4 +148,25 @@ def check(rep, F, rule="comment-test-after-blank"):
               "indicators are ordinary text (only its first character is restricted)" % ", ".join(sorted({repr(chr(next(iter(c.pos)))) for _, cs in offending for c in cs})),
               site=f.span, detail={"paths": npaths, "offending": len(offending), "segments_started_at": sorted(done_starts)})
     rep.extra["plain_word"] = {"paths": n, "tests": len(tests), "content_sites": len(starts), "content_buffers": [e7.buf_name(f, b) for b in rec.content_bufs]}
+    return n
+
+
+def bom_not_content(rep, F, rule="bom-not-content"):
+    """A byte order mark at the very start of the stream is not content (YAML 1.2.2 5.2; C18: a text that starts with a BOM loads to the
+    same documents whether it is decoded from bytes - the decoder strips the mark - or given as a string).  fetch_stream_start, the
+    first thing the scanner runs, is tabulated (E7) over the character at the cursor: U+FEFF is consumed (one character), anything
+    else is left alone."""
+    f = F.fns.get(SCANNER + "::fetch_stream_start")
+    if f is None:
+        raise facts.MissingAnchor("fetch_stream_start not found")
+    rec = WordRec(F, f)
+    ps = [p for p in e7.paths(f, 0, rec, limit=2000) if p["why"] == "return"]
+    n = 0
+    for c, what in ((0xFEFF, "a byte order mark"), (ord("a"), "a letter"), (ord("-"), "an indicator"), (0, "the end of input")):
+        ms = e7.matching(ps, {("cur", 0): c})
+        got = sorted({len([o for o in p["ops"] if o[0] in ("content", "space", "consume?")]) for p in ms})
+        want = [1] if c == 0xFEFF else [0]
+        n += 1
+        rep.check(bool(ms) and got == want, rule, "stream starts with %s" % what, "at the start of the stream, with %s at the cursor, fetch_stream_start consumes %s character(s); "
+                  "it must consume %d (a leading U+FEFF is the byte order mark, not part of the first scalar)" % (what, got, want[0]), site=f.span)
     return n
